@@ -43,7 +43,7 @@ func checkC01(c *Ctx) {
 	bulk := &SketchGen{Init: one, Tokens: []int{10, 11, 14, -12}, Ops: []string{"Add", "AddN"}, Q: 4, QDen: 72, Depth: 4}
 	c.runSketchGen(bulk, mx, c.pick(6, 12), "exhaustive tree with bulk adds, q on the grid k/72")
 	// direction B: production-size inputs, q = every k/(n-1) and both float neighbours, validated by TLC (Trace_Sketch)
-	c.runSketchTraces(c.pick(4, 60), false, c.pick(600, 2500), "unit-weight inputs, q at every k/(n-1)")
+	c.runSketchTraces(c.pick(4, 24), false, c.pick(600, 2000), "unit-weight inputs, q at every k/(n-1)")
 }
 
 // C11 - weighted quantiles only return values the sketch holds, at the right rank
@@ -65,5 +65,5 @@ func checkC11(c *Ctx) {
 		Factors: [][2]int{{1, 2}, {1, 4}, {2, 1}, {3, 1}, {1, 1}}, Ops: []string{"AddW", "AddW", "Add", "Reweight"}, Q: 4, QDen: 8,
 		Depth: c.pick(10, 20), Simulate: true, Num: c.pick(1500, 20000)}
 	c.runSketchGen(sim, mx, c.pick(8, 16), "simulated weighted histories")
-	c.runSketchTraces(c.pick(6, 60), true, c.pick(600, 2500), "weighted inputs, random and extreme q")
+	c.runSketchTraces(c.pick(6, 40), true, c.pick(600, 2000), "weighted inputs, random and extreme q")
 }
